@@ -36,6 +36,9 @@ _add("C09", "Pfdl.Net.C09.no_lookup_error_partial", "Pfdl.Net.C09.accepted_no_lo
 # C14 / C08 at the net layer, for every program: the awaited completions are pairwise different
 _add("C14", "Pfdl.Net.C14.awaited_completions_distinct", "Pfdl.Net.C14.delivered_not_awaited", "Pfdl.Net.ikeeps")
 _add("C08", "Pfdl.Net.C14.delivered_not_awaited", "Pfdl.Net.C14.awaited_completions_distinct")
+# C20 / C17 at the net layer: fan-out of a task notification, registration
+_add("C20", "Pfdl.Net.C20.task_finished_fanout", "Pfdl.Net.C20.register_refused", "Pfdl.Net.C20.register_appends")
+_add("C17", "Pfdl.Net.C20.task_finished_fanout")
 # C08 at the net layer (fire_event as the code does it, also when it is called re-entrantly)
 _add("C08", "Pfdl.Net.C08.refused_no_effect", "Pfdl.Net.C08.fire_refused", "Pfdl.Net.C08.start_again_no_effect",
      "Pfdl.Net.C08.erased_before_delivery")
